@@ -986,8 +986,9 @@ func callBuiltin(caller *frame, fn *ssa.Builtin, args []value) value {
 			}
 			return arg0
 		}
-		// append([]T, ...[]T) []T
-		return append(args[0].([]value), args[1].([]value)...)
+		// append([]T, ...[]T) []T — struct and array elements are VALUES: they are copied, not shared
+		// (stores into aggregates are done in place, so sharing would alias the two slices' elements)
+		return append(args[0].([]value), copyAggElems(args[1].([]value))...)
 
 	case "copy": // copy([]T, []T) int or copy([]byte, string) int
 		src := args[1]
@@ -998,7 +999,7 @@ func callBuiltin(caller *frame, fn *ssa.Builtin, args []value) value {
 			params := fn.Type().(*types.Signature).Params()
 			src = conv(params.At(0).Type(), params.At(1).Type(), src)
 		}
-		return copy(args[0].([]value), src.([]value))
+		return copy(args[0].([]value), copyAggElems(src.([]value)))
 
 	case "close": // close(chan T)
 		close(args[0].(chan value))
@@ -1548,4 +1549,42 @@ func fandbits[F floaty](x, y F) F {
 		*(*uint64)(unsafe.Pointer(&x)) &= *(*uint64)(unsafe.Pointer(&y))
 	}
 	return x
+}
+
+// copyAgg copies a struct or array value (value semantics); everything else is returned as is.
+func copyAgg(v value) value {
+	switch x := v.(type) {
+	case structure:
+		out := make(structure, len(x))
+		for i := range x {
+			out[i] = copyAgg(x[i])
+		}
+		return out
+	case array:
+		out := make(array, len(x))
+		for i := range x {
+			out[i] = copyAgg(x[i])
+		}
+		return out
+	}
+	return v
+}
+
+func copyAggElems(xs []value) []value {
+	needs := false
+	for _, x := range xs {
+		switch x.(type) {
+		case structure, array:
+			needs = true
+		}
+		break
+	}
+	if !needs {
+		return xs
+	}
+	out := make([]value, len(xs))
+	for i, x := range xs {
+		out[i] = copyAgg(x)
+	}
+	return out
 }
